@@ -160,7 +160,9 @@ func (s *v4Server) ResetLeases(leases []*dhcpsvc.Lease) (err error) {
 	s.leases = nil
 
 	for _, l := range leases {
-		if !l.IsStatic {
+		if !l.IsStatic && l.Hostname != "" {
+			// Don't generate hostnames for the leases that didn't have them
+			// when they were stored, to restore the same leases.
 			l.Hostname = s.validHostnameForClient(l.Hostname, l.IP)
 		}
 		err = s.addLease(l)
